@@ -32,6 +32,7 @@ func init() {
 			ruleC20P7(r)
 			ruleOptionSetters(r, "P8", "upstream_options.go")
 			ruleC20P9(r)
+			ruleNoTickerPerIteration(r, "P10", "/iscp", "/wire")
 			r.borrow("C01", func() { ruleC01R8(r) }) // the send buffer owns its slices (a snapshot of buffered points must not change under the caller)
 		},
 	})
@@ -287,32 +288,40 @@ func ruleC20P2(r *Run, le *LockEngine, cut *cutInfo) {
 	h := le.HeldAt(c)
 	mu := upstreamMuKey(fn)
 	r.Check(name+" test under lock", h[mu] == modeW, posOf(p, c), name, fmt.Sprintf("locks held at the test: %v", h))
-	// cut on the true edge only
-	var ifs *ssa.If
-	if cv, ok := c.(ssa.Value); ok && cv.Referrers() != nil {
-		for _, ref := range *cv.Referrers() {
-			if i, ok := ref.(*ssa.If); ok {
-				ifs = i
-			}
-		}
-	}
-	if ifs == nil {
-		r.Check(name+" cut on the true edge", false, posOf(p, c), name, "the result of IsFlush does not directly decide a branch")
+	// cut on the true edge only: the tests of the IsFlush result, here or — when a helper hands the flag straight back
+	// (bufferDataPoints(dpg) bool) — at the helper's call sites
+	cv, _ := c.(ssa.Value)
+	tests, complete := p.testsOf(fn, cv, 0)
+	if len(tests) == 0 || !complete {
+		r.Check(name+" cut on the true edge", false, posOf(p, c), name, "the result of IsFlush does not decide a branch (directly, or as the unchanged result of a helper at all its call sites)")
 		return
 	}
-	tSucc, fSucc := ifs.Block().Succs[0], ifs.Block().Succs[1]
-	cutOnTrue, cutOnFalse := false, false
-	allInstrs(fn, func(ins ssa.Instruction) {
-		if cc, ok := ins.(*ssa.Call); ok && cc.Call.StaticCallee() == cut.Fn {
-			if edgeDominates(ifs.Block(), tSucc, ins.Block()) {
-				cutOnTrue = true
-			}
-			if edgeDominates(ifs.Block(), fSucc, ins.Block()) {
-				cutOnFalse = true
-			}
+	cutOnTrue, cutOnFalse := true, false
+	for _, ifs := range tests {
+		tSucc, fSucc := ifs.Block().Succs[0], ifs.Block().Succs[1]
+		// a negated test (if !flag) swaps the edges
+		if u, isU := ifs.Cond.(*ssa.UnOp); isU && u.Op == token.NOT {
+			tSucc, fSucc = fSucc, tSucc
 		}
-	})
-	r.Check(name+" cut on the true edge", cutOnTrue && !cutOnFalse, posOf(p, ifs), name, fmt.Sprintf("cut reached on the true edge: %v; on the false edge: %v", cutOnTrue, cutOnFalse))
+		onT, onF := false, false
+		allInstrs(ifs.Block().Parent(), func(ins ssa.Instruction) {
+			if cc, ok := ins.(*ssa.Call); ok && cc.Call.StaticCallee() == cut.Fn {
+				if edgeDominates(ifs.Block(), tSucc, ins.Block()) {
+					onT = true
+				}
+				if edgeDominates(ifs.Block(), fSucc, ins.Block()) {
+					onF = true
+				}
+			}
+		})
+		if !onT {
+			cutOnTrue = false
+		}
+		if onF {
+			cutOnFalse = true
+		}
+	}
+	r.Check(name+" cut on the true edge", cutOnTrue && !cutOnFalse, posOf(p, tests[0]), name, fmt.Sprintf("cut reached on the true edge: %v; on the false edge: %v", cutOnTrue, cutOnFalse))
 }
 
 func ruleC20P3(r *Run, cut *cutInfo) {
